@@ -645,9 +645,10 @@ Proof. destruct f; [reflexivity|apply big_result_den|reflexivity]. Qed.
 Lemma wf_rat n d : wf_fval (FRat n d) = true ->
   Z.gcd n (Z.pos d) = 1 /\ Z.abs n < comp_limit /\ Z.pos d < comp_limit.
 Proof.
-  cbn [wf_fval]. intros W. apply andb_true_iff in W. destruct W as [W W3].
-  apply andb_true_iff in W. destruct W as [W1 W2].
-  apply Z.eqb_eq in W1. unfold small_comp in *. apply Z.ltb_lt in W2, W3. simpl Z.abs in W3. auto.
+  intros W. cbn [wf_fval] in W.
+  destruct (andb_prop _ _ W) as [W12 W3]. destruct (andb_prop _ _ W12) as [W1 W2].
+  split; [apply Z.eqb_eq; exact W1|]. split; [apply Z.ltb_lt; exact W2|].
+  rewrite <- (Z.abs_eq (Z.pos d)) by lia. apply Z.ltb_lt. exact W3.
 Qed.
 
 Lemma unmarshal_fval f : wf_fval f = true ->
